@@ -738,7 +738,8 @@ impl<'a> Model<'a> {
 
         // We normally don't follow Excel's sometimes archaic size's restrictions
         // But this might be a security issue
-        if text_len * number_times > 32767 {
+        // (in 64 bits: the product of two i32 does not fit in an i32)
+        if text_len as i64 * number_times as i64 > 32767 {
             return CalcResult::Error {
                 error: Error::VALUE,
                 origin: cell,
